@@ -129,12 +129,16 @@ def read_cases(ctx: Ctx, case: Dict[str, Any], suite: str):
         if ctx.quick:
             budgets = [None, 1] + ctx.rng.sample(budgets[2:], 2)
         for budget in budgets:
-            for out_kind in (["none", "match", "mismatch", "mismatch_dtype"] if is_tensor else ["none"]):
+            for out_kind in (["none", "match", "match_view", "mismatch", "mismatch_dtype"] if is_tensor else ["none"]):
                 if ctx.quick and out_kind != "none" and ctx.rng.random() < 0.4:
                     continue
                 nobatch = ctx.rng.random() < 0.5
                 if out_kind == "match" and isinstance(want, torch.Tensor):
                     obj_out = torch.full(want.shape, 1, dtype=want.dtype) if want.dtype != torch.bool else torch.ones(want.shape, dtype=torch.bool)
+                elif out_kind == "match_view" and isinstance(want, torch.Tensor) and want.dim() >= 2 and want.numel() > 0:
+                    # matching dtype/shape, but a column block of a wider buffer: cannot be viewed flat
+                    wide = torch.zeros(list(want.shape[:-1]) + [want.shape[-1] + 2], dtype=want.dtype)
+                    obj_out = wide[..., : want.shape[-1]]
                 elif out_kind == "mismatch" and isinstance(want, torch.Tensor):
                     obj_out = torch.zeros(list(want.shape) + [2], dtype=want.dtype)
                 elif out_kind == "mismatch_dtype" and isinstance(want, torch.Tensor):
@@ -207,7 +211,12 @@ def _tie_tiles(ctx, entry, budget, reads, inp):
         if te.serializer != "buffer_protocol":
             expected.append((te.location, tuple(te.byte_range) if te.byte_range else None))
             continue
-        rep = ctx.driver.call({"op": "tile", "shape": list(te.shape), "dtype": te.dtype.replace("torch.", ""), "flat": True,
+        lead = 1
+        for x_ in list(te.shape)[:-1]:
+            lead *= x_
+        # a destination that is a column block of a wider buffer can be viewed flat only when it is a single row
+        flat = not (inp.get("obj_out") == "match_view" and lead > 1 and list(te.shape)[-1] > 1)
+        rep = ctx.driver.call({"op": "tile", "shape": list(te.shape), "dtype": te.dtype.replace("torch.", ""), "flat": flat,
                                "limit": budget, "base": list(te.byte_range) if te.byte_range else None})
         if "tiles" not in rep:
             ctx.disagree("read_object_tiles", {k: v for k, v in inp.items() if k != "case"}, "real read succeeded", rep)
